@@ -23,7 +23,7 @@ REQUIRED = ["law.reflexive", "law.deepcopy", "law.symmetric", "law.twin", "law.p
             "law.hash-consistent", "defaults-instance", "law.kwargs-order", "law.cross-class-state", "law.optional-subsets", "law.derived-attribute-twin",
             "coordinates-of-different-magnitude", "law.after-update_initial_state", "law.assembly-twin", "law.moved-after-compared", "law.other-representation", "law.inspected-twin", "perturbation.emptied-collection",
             "class.Polygon.large", "class.Lanelet.large"]
-ASSUMPTIONS = ["perturbations are clearly different valid values (never a reordering or a duplicate)",
+ASSUMPTIONS = ["perturbations are clearly different valid values (never a duplicate; a reordering only for the member lists of shape groups and light cycles, whose order carries meaning)",
                "real perturbations are >= 1e-6, i.e. far above the documented 1e-10 resolution"]
 SHARDS = {"quick": 4, "thorough": 16}
 
@@ -82,6 +82,19 @@ def p_list_dup_changed(change):
         v = list(v)
         v[-1] = change(g, v[-1])
         return v
+    return f
+
+
+def p_reversed(fallback):
+    """the members of an ORDERED collection in reverse order (where the order means something: the towing vehicle of a
+    shape group comes first, the phases of a light follow each other); a palindrome gets the fallback perturbation"""
+    def f(g, v):
+        r = list(reversed(list(v)))
+        try:
+            same = r == list(v)
+        except Exception:  # noqa
+            same = True
+        return fallback(g, v) if same else r
     return f
 
 
@@ -157,7 +170,8 @@ def registry():
                                                      "border_vertices": big_lanelet_kw(g)["center_vertices"]}, None),
                              {"border_vertices": [lambda g, v: _shift_row(v, len(v) // 2, 0.25)]})
     R["ShapeGroup"] = (lambda g: (ShapeGroup, {"shapes": [g.basic_shape() for _ in range(g.r.randint(1, 3))]}, None),
-                       {"shapes": [p_list_dup_changed(other_shape), lambda g, v: list(v) + [g.circle(radius=9.5)]]})
+                       {"shapes": [p_list_dup_changed(other_shape), lambda g, v: list(v) + [g.circle(radius=9.5)],
+                                   p_reversed(lambda g, v: list(v) + [g.circle(radius=9.25)])]})
     R["Interval"] = (lambda g: (Interval, {"start": g.real(), "end": 200.0 + g.real()}, None),
                      {"start": both, "end": both})
     R["AngleInterval"] = (lambda g: (AngleInterval, {"start": -1.0 + g.r.uniform(0, 0.5), "end": 0.5 + g.r.uniform(0, 1)},
@@ -288,7 +302,8 @@ def registry():
     R["TrafficLightCycle"] = (lambda g: (TrafficLightCycle, g.cycle_kw(), {}),
                               {"cycle_elements": [p_list_drop if False else (lambda g, v: list(v) + [g.cycle_element()]),
                                                   p_list_dup_changed(lambda g, e: TrafficLightCycleElement(
-                                                      e.state, e.duration + 1))],
+                                                      e.state, e.duration + 1)),
+                                                  p_reversed(lambda g, v: list(v) + [g.cycle_element()])],
                                "time_offset": [p_int], "active": [p_bool]})
     R["TrafficLight"] = (lambda g: (TrafficLight, g.traffic_light_kw(g.r.randint(1, 99), True),
                                     {"traffic_light_id": 4, "position": g.pos()}),
